@@ -8,7 +8,7 @@ PLAN = {   # seed -> properties whose checks are run against it (own property fi
  'C01-m3': ['C01', 'C04'], 'C03-m1': ['C03', 'C04', 'C12'], 'C12-m3': ['C12', 'C04'], 'C13-m3': ['C13', 'C04'],
  'C18-m1': ['C18', 'C04'], 'C07-n1': ['C07', 'C01'], 'C05-n2': ['C05', 'C06'], 'C05-n3': ['C05', 'C12'], 'C06-m2': ['C06', 'C04'],
  'C12-m1': ['C12', 'C13'], 'C20-n3': ['C20', 'C04'], 'C02-m1': ['C02', 'C07'], 'C02-m2': ['C02', 'C01'], 'C02-m3': ['C02', 'C10'], 'C08-p1': ['C08', 'C04'],
- 'C01-m1': ['C01', 'C02'], 'C07-m3': ['C07', 'C02'],
+ 'C01-m1': ['C01', 'C02'], 'C01-p1': ['C01', 'C04'], 'C07-m3': ['C07', 'C02'],
 }
 RES = '/verif/seeded/RESULTS.json'
 HEAD = subprocess.check_output(['git', '-C', '/repo', 'rev-parse', 'HEAD'], text=True).strip()
